@@ -8,7 +8,7 @@ LEVEL = 'exploration'
 RULE = ('every ordered pair of same-typed patterns of the catalogue (100 index-type tuples, 606 patterns) x default pairs '
         'over {0,1,-1,inf} x physical contents: ALL assignments of {0,1,1.5} to the physical elements when the two '
         'tensors together have <= 3 (thorough 4) of them, otherwise "b := re-patterned copy of a" with every single-element '
-        'perturbation by {1e-9, 0.5}, plus a NaN / +inf / -inf element and a NaN default (compared with a re-patterned copy, a clone and the very same object); equal and allclose under (rtol,atol) in {(1e-5,1e-8),(0,0.5),(0.4,0)} '
+        'perturbation by {1e-9, 0.5}, plus a NaN / +inf / -inf element and a NaN default (compared with a re-patterned copy, a clone and the very same object); every tensor against its own views T / flatten / unsqueeze (shared physical axes, equal or different shape); equal and allclose under (rtol,atol) in {(1e-5,1e-8),(0,0.5),(0.4,0)} '
         'against torch.equal / torch.allclose on to_dense(), both argument orders; equal_default / allclose_default; '
         'a tensor equals its clone, its densification and its re-patterned copy; MultiTensor.allclose over every '
         'key-presence pattern of two MultiTensors with 3 keys, blocks in {absent, zero, 0.05, 1}, tol in {0, 0.1}, in the '
@@ -168,6 +168,29 @@ def judge(pa, pb, da, db, va, vb, r):
             if bool(a.allclose(a, rtol=rtol, atol=atol)) != wself or bool(a.allclose(a.clone(), rtol=rtol, atol=atol)) != wself:
                 r.bad('allclose-wrong', 'indices.PatternedTensor.allclose', 'allclose-self', '%s: allclose with itself %r / with its clone %r, torch.allclose %r' % (desc, a.allclose(a, rtol=rtol, atol=atol), a.allclose(a.clone(), rtol=rtol, atol=atol), wself), case, key)
                 return
+        # views of the same tensor: they share physical axes with a, in other positions or under another shape
+        views = [('flatten', a.flatten(), A.flatten()), ('unsqueeze0', a.unsqueeze(0), A.unsqueeze(0)), ('unsqueeze-1', a.unsqueeze(-1), A.unsqueeze(-1))]
+        if a.ndim == 2:
+            views.append(('T', a.T, A.T))
+        for vn, v, V in views:
+            weq = bool(A.shape == V.shape and torch.equal(A, V))
+            with warnings.catch_warnings(record=True) as wlist:
+                warnings.simplefilter('always')
+                g = (a.equal(v), v.equal(a))
+            if any('type mismatch' in str(x.message) for x in wlist):
+                # e.g. a matrix whose two axes have different index types against its transpose: not a well-typed pair
+                r.excl['view comparison is ill-typed (unify warning)'] += 1
+                continue
+            if bool(g[0]) != weq or bool(g[1]) != weq:
+                r.bad('equal-wrong', 'indices.PatternedTensor.equal', 'equal-view', '%s: a.equal(a.%s) = %r / reversed %r, torch.equal %r (shapes %r, %r)' % (desc, vn, g[0], g[1], weq, tuple(A.shape), tuple(V.shape)), case, key)
+                return
+            if A.shape == V.shape:
+                for rtol, atol in TOLS[:2]:
+                    wv = bool(torch.allclose(A, V, rtol=rtol, atol=atol))
+                    gv = (a.allclose(v, rtol=rtol, atol=atol), v.allclose(a, rtol=rtol, atol=atol))
+                    if bool(gv[0]) != wv or bool(gv[1]) != bool(torch.allclose(V, A, rtol=rtol, atol=atol)):
+                        r.bad('allclose-wrong', 'indices.PatternedTensor.allclose', 'allclose-view', '%s: a.allclose(a.%s) = %r / reversed %r, torch.allclose %r' % (desc, vn, gv[0], gv[1], wv), case, key)
+                        return
         from fggs.indices import PatternedTensor
         if bool(a.equal(PatternedTensor(A))) != selfeq or bool(PatternedTensor(A).equal(a)) != selfeq:
             r.bad('equal-wrong', 'indices.PatternedTensor.equal', 'equal-self', '%s: tensor != its densification' % desc, case, key)
